@@ -95,10 +95,10 @@ def _volume(ctx):
     d = tuple(z3.Int(f'd{c}') for c in 'xyz')
     for x in d:
         ctx.assume(x >= 1)
-    df = z3.Function('density', z3.IntSort(), z3.IntSort(), z3.IntSort(), z3.IntSort())
+    df = z3.Function('density', z3.IntSort(), z3.IntSort(), z3.IntSort(), z3.RealSort())  # counts or averaged (float) densities
     a, b, c = z3.Ints('qa qb qc')
     ctx.assume(z3.ForAll([a, b, c], df(a, b, c) >= 0, patterns=[df(a, b, c)]), tag='requires: density volume is non-negative')
-    data = STensor(d, lambda i, j, k: df(to_z3(i), to_z3(j), to_z3(k)), 'int')
+    data = STensor(d, lambda i, j, k: df(to_z3(i), to_z3(j), to_z3(k)), 'real')
     return SObj('Volume', data=data, lattice=lat, dims=d), {'d': d, 'df': df, 'lat': lat}
 
 
@@ -127,7 +127,7 @@ def unit_probability(tier):
         return [('innermost-summand-is-density', z3.ForAll([a, b, c], z3.Implies(rng, sums[0]['f'](a, b, c) == df(a, b, c)))),
                 ('middle-sums-inner', z3.ForAll([a, b], sums[1]['f'](a, b) == sums[0]['S'](a, b, d[2]))),
                 ('outer-sums-middle', z3.ForAll([a], sums[2]['f'](a) == sums[1]['S'](a, d[1]))),
-                ('p=data/total', z3.ForAll([a, b, c], z3.Implies(z3.And(rng, tot > 0), z3.And(p.at(a, b, c) == z3.ToReal(df(a, b, c)) / z3.ToReal(tot),
+                ('p=data/total', z3.ForAll([a, b, c], z3.Implies(z3.And(rng, tot > 0), z3.And(p.at(a, b, c) == df(a, b, c) / tot,
                                                                                             p.at(a, b, c) >= 0))))]
     u.prove_function('gemdat.volume', 'Volume.probability', setup, post,
                      replay={'fn': 'verif.props.c09:replay_free_energy', 'sizes': lambda st: [],
@@ -145,14 +145,14 @@ def unit_free_energy(tier):
         df = ctx.ghost['st']['df']
         tot = ctx.ghost['st']['tot']
         ctx.use('contract of Volume.probability (unit C09.probability): p = data/total with total = sum(data) > 0')
-        return STensor(d, lambda i, j, k: z3.ToReal(df(to_z3(i), to_z3(j), to_z3(k))) / z3.ToReal(tot), 'real')
+        return STensor(d, lambda i, j, k: df(to_z3(i), to_z3(j), to_z3(k)) / tot, 'real')
     u.contracts['gemdat.volume.Volume.probability'] = prob_contract
 
     def setup(interp):
         ctx = interp.ctx
         vol, st = _volume(ctx)
         T = z3.Real('temperature')
-        tot = z3.Int('total_density')
+        tot = z3.Real('total_density')
         ctx.assume(z3.And(T > 0, tot > 0))
         a, b, c = z3.Ints('ra rb rc')
         ctx.assume(z3.ForAll([a, b, c], st['df'](a, b, c) <= tot, patterns=[st['df'](a, b, c)]),
@@ -171,8 +171,8 @@ def unit_free_energy(tier):
         a, b, c, a2, b2, c2 = z3.Ints('va vb vc wa wb wc')
         rng = z3.And(a >= 0, a < d[0], b >= 0, b < d[1], c >= 0, c < d[2])
         rng2 = z3.And(a2 >= 0, a2 < d[0], b2 >= 0, b2 < d[1], c2 >= 0, c2 < d[2])
-        p = z3.ToReal(df(a, b, c)) / z3.ToReal(tot)
-        p2 = z3.ToReal(df(a2, b2, c2)) / z3.ToReal(tot)
+        p = df(a, b, c) / tot
+        p2 = df(a2, b2, c2) / tot
         out.append(('class', z3.BoolVal(fe._cls == 'FreeEnergyVolume')))
         out.append(('lattice-kept', z3.BoolVal(fe.get('lattice') is st['lat'])))
         out.append(('F=-kT.ln(p)-on-visited', z3.ForAll([a, b, c], z3.Implies(z3.And(rng, df(a, b, c) > 0), F.at(a, b, c) == -kT * ln(p)))))
@@ -208,6 +208,8 @@ def replay_free_energy(inputs):
     data[rng.random(shape) < 0.3] = 0
     if data.sum() == 0:
         data[(0,) * 3] = 3
+    if inputs.get('scale'):
+        data = data * float(inputs['scale'])  # averaged (non-integer) densities, possibly with a total below one
     vol = Volume(data=data, lattice=Lattice.cubic(4.0))
     bad = []
     p = vol.probability()
@@ -241,12 +243,13 @@ def replay_free_energy(inputs):
 def bounded_free_energy(tier, seed):
     import numpy as np
     n = 60 if tier == 'quick' else 1500
-    st = Stand('C09.free_energy.random', f'{n} random non-negative integer grids (<= 4x4x4, ~30% zeros) x T in {{1, 300, 1000}}',
+    st = Stand('C09.free_energy.random', f'{n} random non-negative grids (<= 4x4x4, ~30% zeros; integer counts and scaled float densities incl. totals below 1) x T in {{1, 300, 1000, 20000}}',
                'seeded random; non-trivial = grid with both zero and non-zero voxels; distinct by (seed, shape, T)')
     rng = np.random.default_rng(seed + 909)
     for c in range(n):
         shape = [int(x) for x in rng.integers(1, 5, size=3)]
-        inp = {'seed': int(rng.integers(1, 10 ** 6)), 'shape': shape, 'temperature': float([1.0, 300.0, 1000.0][c % 3])}
+        inp = {'seed': int(rng.integers(1, 10 ** 6)), 'shape': shape, 'temperature': float([1.0, 300.0, 1000.0, 20000.0][c % 4]),
+               'scale': [None, 0.01, 0.5, 3.7][(c // 4) % 4]}
         r = st.guard(replay_free_energy, inp)
         if r is None:
             continue
